@@ -104,6 +104,14 @@ theorem placerDomain_of_sysinfo {si : SysInfo} {wp : WProblem} {pl : Placer} (hp
   emptyOK := hpl.emptyOK
   oracle := hpl.oracle
 
+/-- with at least one vertex the `EmptyOK` hypothesis of the placers is vacuous -/
+theorem emptyOK_of_vertices (si : SysInfo) (wp : WProblem) (h : wp.vr ≠ []) :
+    Rig.C02.EmptyOK (vr02 (problemOf si wp)) (cs02 (problemOf si wp)) (problemOf si wp).m2 := by
+  intro he
+  exfalso
+  apply h
+  simpa [vr02, problemOf] using he
+
 /-! ## the machine the packets travel on is the machine the SystemInfo describes -/
 
 /-- **`machine_is_sysinfo`** - the bridge, stated on the machine of the delivery statement: for a well-formed
@@ -230,6 +238,89 @@ theorem alloc_idle {si : SysInfo} {wp : WProblem} (hsi : SIDomain si) (dom : WDo
   simp only [bne_eq_false_iff_eq] at hnb
   rw [hnb]
 
+/-! ## the oracle decides the specification -/
+
+theorem lookup_some_mem {α β : Type} [BEq α] [LawfulBEq α] : ∀ {l : List (α × β)} {a : α} {b : β},
+    l.lookup a = some b → (a, b) ∈ l
+  | [], _, _, h => by cases h
+  | (k, v) :: t, a, b, h => by
+    simp only [List.lookup_cons] at h
+    split at h
+    · rename_i he
+      cases h
+      have : a = k := by simpa using he
+      subst this; simp
+    · exact List.mem_cons_of_mem _ (lookup_some_mem h)
+
+theorem lookup_of_mem_nodup {α β : Type} [BEq α] [LawfulBEq α] : ∀ {l : List (α × β)} {a : α} {b : β},
+    (l.map (·.1)).Nodup → (a, b) ∈ l → l.lookup a = some b
+  | [], _, _, _, h => by cases h
+  | (k, v) :: t, a, b, hn, h => by
+    simp only [List.map_cons, List.nodup_cons] at hn
+    simp only [List.lookup_cons]
+    rcases List.mem_cons.1 h with h1 | h2
+    · cases h1; simp
+    · have hne : (a == k) = false := by
+        simp only [beq_eq_false_iff_ne, ne_eq]
+        intro e; subst e
+        exact hn.1 (List.mem_map.2 ⟨(a, b), h2, rfl⟩)
+      rw [hne]
+      exact lookup_of_mem_nodup hn.2 h2
+
+/-- one (vertex, chip, range): the cores of the range that are absent or not idle -/
+theorem badCores_nil_iff (si : SysInfo) (hnd : (si.chips.map (·.1)).Nodup) (v : Nat) (c : Nat × Nat) (sl : Rig.C05.Slice) :
+    (((List.range (sl.stop.toNat - sl.start.toNat)).map (· + sl.start.toNat)).filterMap fun i =>
+        match si.chips.lookup c with
+        | some ci => if i < ci.numCores && ci.coreStates[i]? == some APPSTATE_IDLE then none else some (v, c, i)
+        | none => some (v, c, i)) = [] ↔
+    ∀ i : Nat, sl.start ≤ (i : Int) → (i : Int) < sl.stop →
+      ∃ ci, (c, ci) ∈ si.chips ∧ i < ci.numCores ∧ ci.coreStates[i]? = some APPSTATE_IDLE := by
+  rw [List.filterMap_eq_nil_iff]
+  constructor
+  · intro h i h1 h2
+    have hm : i ∈ (List.range (sl.stop.toNat - sl.start.toNat)).map (· + sl.start.toNat) := by
+      simp only [List.mem_map, List.mem_range]
+      exact ⟨i - sl.start.toNat, by omega, by omega⟩
+    have := h i hm
+    split at this
+    · rename_i ci hl
+      split at this
+      · rename_i hc
+        simp only [Bool.and_eq_true, decide_eq_true_eq, beq_iff_eq] at hc
+        exact ⟨ci, lookup_some_mem hl, hc.1, hc.2⟩
+      · cases this
+    · cases this
+  · intro h i hm
+    simp only [List.mem_map, List.mem_range] at hm
+    obtain ⟨j, hj, rfl⟩ := hm
+    obtain ⟨ci, hci, h1, h2⟩ := h (j + sl.start.toNat) (by omega) (by omega)
+    rw [lookup_of_mem_nodup hnd hci]
+    simp [h1, h2]
+
+/-- **oracle = specification**: the decided `allocIdleB` (what the harness evaluates on the placements and
+allocations the implementation returned) is `AllocIdle` (what `wrapper_pipeline_delivers` proves), for every
+SystemInfo with distinct keys -/
+theorem allocIdleB_iff (si : SysInfo) (hnd : (si.chips.map (·.1)).Nodup) (p : Rig.C02.Placement) (A : Rig.C05.Alloc) :
+    allocIdleB si p A = true ↔ AllocIdle si p A := by
+  unfold allocIdleB allocBad AllocIdle
+  rw [List.isEmpty_iff, List.flatMap_eq_nil_iff]
+  constructor
+  · intro h v c sl hp hsl
+    have hm := Rig.C02.aget_some_mem hp
+    have := h _ hm
+    simp only [hp, hsl] at this
+    exact (badCores_nil_iff si hnd v c sl).1 this
+  · intro h vc hvc
+    obtain ⟨vt, c0⟩ := vc
+    cases vt with
+    | m k => rfl
+    | o v =>
+      simp only
+      split
+      · rename_i c sl hp hsl
+        exact (badCores_nil_iff si hnd v c sl).2 (h v c sl hp hsl)
+      · rfl
+
 /-! ## the capstone for `place_and_route_wrapper` -/
 
 /-- **wrapper_pipeline_delivers** - C01 for `place_and_route_wrapper`, starting from the SystemInfo.
@@ -282,6 +373,28 @@ theorem wrapper_pipeline_no_flag (si : SysInfo) (wp : WProblem) (placer : Placer
       flags (deliver (machine3 (problemOf si wp)) (devLinks (problemOf si wp) out.placement)
         (tableAt out.final) k q.src) = [] :=
   model_pipeline_no_flag _ placer radius orc _ out (domain_of_sysinfo hsi dom) (placerDomain_of_sysinfo hpl) h
+
+/-- **the wrapper model fails only as documented**: the placer's own error (C02: `seqPlace/randPlace/saPlace_documented`),
+or after a feasible placement one of the failures of `afterPlace_only_failure` - the allocator's error,
+`MachineHasDisconnectedSubregion` and that only when the machine the SystemInfo describes is not strongly connected,
+`MinimisationFailedError` (a table does not fit the chip's free router entries), an impossible oracle.  In particular
+`routing_tree_to_tables` never raises `MultisourceRouteError` inside the wrapper. -/
+theorem wrapper_only_failure (si : SysInfo) (wp : WProblem) (placer : Placer) (radius : Nat)
+    (orc : List NetOracle) (methods : List Rig.C04.Method) (e : PErr)
+    (hsi : SIDomain si) (dom : WDomain si wp) (hpl : WPlacerDomain si wp placer)
+    (h : wrapperPipeline si wp placer radius orc methods = .error e) :
+    (∃ e', runPlacer (problemOf si wp) placer = .error e' ∧ e = .place e') ∨
+      DocumentedFailure (problemOf si wp) e := by
+  have hd := domain_of_sysinfo hsi dom
+  unfold wrapperPipeline modelPipeline at h
+  split at h
+  · rename_i e' he'
+    cases h
+    exact Or.inl ⟨e', he', rfl⟩
+  · rename_i p hp
+    right
+    have hf := runPlacer_feasible _ placer p hd (placerDomain_of_sysinfo hpl) hp
+    exact afterPlace_only_failure _ p radius orc _ e hd hf h
 
 /-! ## the deprecated `wrapper()` -/
 
@@ -344,6 +457,66 @@ theorem deprecated_pipeline_delivers (pb : Problem) (sdramRes : Nat) (rm al : Bo
             (sinkCores q.sinks) (sinkExits q.sinks))
       pb.nets out.nets :=
   (model_pipeline_delivers _ placer radius orc _ out (domain_deprecated dom sdramRes rm al) hpl h).2.2
+
+/-! ## from the machine: C14's probe theorem plugged in -/
+
+open Rig.C14 (MachineState Rd getSystemInfo chipView) in
+/-- **every probed machine is in the domain**: what `get_system_info` returns on a machine state served as the machine
+specification says (C14 `get_system_info_exact`) satisfies `SIDomain` -/
+theorem sidomain_of_probe (m : MachineState) (rd : Rd) (hs : m.Serves rd) (hl : ∃ xy, m.listed xy = true) :
+    getSystemInfo rd m.probe = .ok m.sysInfo ∧ SIDomain m.sysInfo := by
+  obtain ⟨h1, hwf, hmem⟩ := Rig.C14.get_system_info_exact m rd hs hl
+  refine ⟨h1, hwf, ?_, ?_⟩
+  · intro xy ci h
+    obtain ⟨st, _, hst, rfl⟩ := (hmem xy ci).1 h
+    exact (hs.chipsWF xy st hst).1
+  · intro xy ci h
+    obtain ⟨st, _, hst, rfl⟩ := (hmem xy ci).1 h
+    have hw := hs.chipsWF xy st hst
+    simp only [chipView, List.length_take]
+    have := hw.1
+    have := hw.2.1
+    omega
+
+open Rig.C14 (MachineState Rd getSystemInfo chipView) in
+/-- **from the machine to the delivered packets**: probe a machine (`get_system_info`), hand the description to
+`place_and_route_wrapper`: if the wrapper model returns, every packet is delivered on the final tables and every
+allocated core is idle in the description, which is the machine's state (C14 `probe_views_exact`) -/
+theorem probed_wrapper_delivers (m : MachineState) (rd : Rd) (hs : m.Serves rd) (hl : ∃ xy, m.listed xy = true)
+    (wp : WProblem) (placer : Placer) (radius : Nat) (orc : List NetOracle) (methods : List Rig.C04.Method) (out : Out) :
+    ∃ si, getSystemInfo rd m.probe = .ok si ∧
+      (WDomain si wp → WPlacerDomain si wp placer →
+        wrapperPipeline si wp placer radius orc methods = .ok out →
+        List.Forall₂ (fun (n : ANet) (q : PNet) =>
+            NetOf (problemOf si wp) out.placement out.alloc n q ∧
+            ∀ k : W, k &&& n.mask = n.key →
+              Delivered (deliver (machine3 (problemOf si wp)) (devLinks (problemOf si wp) out.placement)
+                  (tableAt out.final) k q.src)
+                (sinkCores q.sinks) (sinkExits q.sinks))
+          wp.nets out.nets ∧
+        AllocIdle si out.placement out.alloc) := by
+  obtain ⟨h1, hd⟩ := sidomain_of_probe m rd hs hl
+  exact ⟨m.sysInfo, h1, fun dom hpl h => (wrapper_pipeline_delivers _ wp placer radius orc methods out hd dom hpl h).2.2⟩
+
+
+open Rig.C14 (MachineState Rd getSystemInfo chipView) in
+/-- ... and in the vocabulary of the machine state: a core that `AllocIdle` admits on the probed description is a
+working core of the machine's chip that is not busy (`ChipState.busyCore`, the predicate of C14's
+`probe_to_machine_exact`) -/
+theorem allocIdle_machine_state (m : MachineState) (p : Rig.C02.Placement) (A : Rig.C05.Alloc)
+    (h : AllocIdle m.sysInfo p A) :
+    ∀ v c sl, Rig.C02.aget p (.o v) = some c → Rig.C01Pipe.coresOf A 0 v = some sl →
+      ∀ i : Nat, sl.start ≤ (i : Int) → (i : Int) < sl.stop →
+        ∃ st, m.listed c = true ∧ m.chips.lookup c = some st ∧ i < st.cores ∧ st.busyCore i = false := by
+  intro v c sl hp hsl i h1 h2
+  obtain ⟨ci, hci, hlt, hidle⟩ := h v c sl hp hsl i h1 h2
+  obtain ⟨st, hl, hst, rfl⟩ := (Rig.C14.mem_sysInfo m c ci).1 hci
+  refine ⟨st, hl, hst, hlt, ?_⟩
+  simp only [chipView] at hlt hidle
+  unfold Rig.C14.ChipState.busyCore
+  rw [List.getElem?_take] at hidle
+  simp only [hlt, if_true] at hidle
+  simp [hidle, hlt]
 
 /-! ## non-vacuity: a concrete SystemInfo and application in the domain, run through `wrapperPipeline`
 
